@@ -2,7 +2,7 @@ META = {
     "level": "model_checking",
     "technique": "TLA+ model of a re-exchange with in-flight connection-layer traffic, transport thread, user threads, clear_to_send and handler replies (Rekey.tla) model-checked by TLC incl. deadlock freedom (the pinned reply paths must be refuted); real transports on a latency-controlled in-memory link: every in-flight message kind x initiator x concurrent senders crosses a real re-exchange; outbound type sequences of both ends and the outcome validated by TLC (Rekey_Trace.tla)",
     "text": "TLC checks KexQuiet, SessionStaysUp, NoSelfWait and that every terminal state has completed the exchange with every in-flight request answered, over all delivery orders; on the code, the peer's message is held in the link until the initiator's KEXINIT is out, then released, with user threads sending meanwhile; TLC checks quietness between KEXINIT and NEWKEYS on both taps, completion, liveness of both ends, delivery of the in-flight message and integrity of the user data",
-    "note": "trusted: TLC, netsched hold/release (the in-flight message really is behind the initiator's KEXINIT in time), tap order = wire order, clear_to_send_timeout lowered to 2 s (an instance attribute) so a stalled exchange shows quickly; real-time: a scenario gets a 6 s deadline",
+    "note": "scenarios also cover every user-level sending API of the initiator and its keepalive timer during the exchange (toggle UngatedUser) and 2-3 reply-wanting requests crossing the KEXINIT (toggle FlushSkips); trusted: TLC, netsched hold/release (the in-flight message really is behind the initiator's KEXINIT in time), tap order = wire order, clear_to_send_timeout lowered to 2 s (an instance attribute) so a stalled exchange shows quickly; real-time: a scenario gets a 6 s deadline",
 }
 import random
 from harness.core import cfg_text, Machinery
